@@ -109,6 +109,29 @@ def declare_dispatch(E):
                        "Exception": {"when": "True", "ensures": [SETTLED]}})
 
 
+def declare_registration(E):
+    """SFTPClient._async_request: the request is registered - under the object given, under the number returned - BEFORE it
+    goes out on the wire; otherwise an answer taken off the wire by another thread in between is an 'unexpected response'
+    and is dropped, and whoever waits for it waits forever"""
+    from contracts import specs   # noqa: registers the message specification functions
+    K = "paramiko.sftp_client.SFTPClient."
+    E.declare_ghost(registrations="int", reg_num="int", reg_owner="int", sends="int")
+    E.declare_class("paramiko.sftp_client.SFTPClient", {"_expecting": "opaque:ExpMap", "_lock": "opaque:Lock", "request_number": "nat"})
+    E.contract("ExpMap.__setitem__", argnames=["self", "k", "v"], returns="none",
+               ghost={"registrations": "ghost('registrations') + 1", "reg_num": "k", "reg_owner": "opaque_id(v)"})
+    E.contract("paramiko.sftp.BaseSFTP._send_packet", params={"t": "int", "packet": "obj:Message"}, returns="none",
+               requires={"the_request_is_registered_before_it_goes_out": "ghost('registrations') == 1"},
+               ghost={"sends": "ghost('sends') + 1"},
+               raises={"OSError": "True", "EOFError": "True", "SSHException": "True"})
+    E.contract(K + "_async_request", params={"fileobj": "union[opaque:Owner,class:NoneType]", "t": "int", "args": "tuple[bytes,int,bytes]"},
+               requires={"counting_from_here": "ghost('registrations') == 0 and ghost('sends') == 0", "room": "self.request_number < 2**32"},
+               ensures={"registered_once_under_the_number_returned_and_the_object_given":
+                        "ghost('registrations') == 1 and ghost('reg_num') == result and ghost('reg_owner') == opaque_id(fileobj)",
+                        "sent_once": "ghost('sends') == 1",
+                        "numbers_are_not_reused": "self.request_number == old(self.request_number) + 1 and result == old(self.request_number)"},
+               returns="int", raises={"OSError": "True", "EOFError": "True", "SSHException": "True", "struct.error": "True"})
+
+
 def declare_transfer(E):
     """SFTPClient._transfer_with_callback: the writer receives exactly what the reader delivered, in order"""
     import z3
@@ -141,3 +164,20 @@ def declare_transfer(E):
                               havoc_ghosts=["tsrc", "tsink"], vars={"data": "bytes"})},
                returns="int", raises={"OSError": "True", "SSHException": "True", "Exception": "True"})
     E.opaque_contracts["callable"] = dict(argnames=["self", "a", "b"], returns="none", raises={"Exception": "True"})
+
+
+def client_variants(E):
+    """TARGET entries (own environments) for the client half of the request / response machinery: registration before
+    sending (_async_request) and the dispatch loop (_read_response). Shared by C29 and C30."""
+    from contracts import message as _m
+    out = []
+    for name, decl, qn in (("registration", declare_registration, "paramiko.sftp_client.SFTPClient._async_request"),
+                           ("dispatch", declare_dispatch, "paramiko.sftp_client.SFTPClient._read_response")):
+        E4 = type(E)()
+        _m.declare(E4)
+        decl(E4)
+        out.append((qn, name, dict(E4.contracts[qn], **{
+            "+replace": True, "+contracts": {k: v for k, v in E4.contracts.items() if k != qn},
+            "+fields": {c: dict(d["fields"]) for c, d in E4.classdecl.items()},
+            "+engine": {"ghost_types": dict(E.ghost_types, **E4.ghost_types), "inline_ok": set(E4.inline_ok) | set(E.inline_ok)}})))
+    return out
